@@ -100,7 +100,7 @@ class Underflow:
 
 def sym_exec(code, start=0, max_steps=10000):
     """Run from index `start` to a terminator or the end of the sequence,
-    following fall-through edges only. Returns (events, stack snapshot, env)."""
+    following fall-through edges and unconditional forward jumps to labels inside the sequence. Returns (events, stack snapshot, env)."""
     st = Underflow()
     env = {}
     defined = set()
@@ -108,6 +108,10 @@ def sym_exec(code, start=0, max_steps=10000):
     i = start
     n = len(code)
     steps = 0
+    label_pos = {}
+    for idx, ins in enumerate(code):
+        if ins[0] == 'Label':
+            label_pos.setdefault(ins[1], idx)
     while i < n:
         steps += 1
         if steps > max_steps:
@@ -230,6 +234,12 @@ def sym_exec(code, start=0, max_steps=10000):
         elif name == 'PushHandler':
             events.append((name, b, st.snapshot()))
         elif name in ('Jump', 'Loop'):
+            if name == 'Jump' and label_pos.get(a, -1) >= i:
+                # an unconditional forward jump to a label inside this sequence transfers control and does
+                # nothing else: execution continues there (so `Jump L; Label L` is a no-op and an optimiser may
+                # delete it). Backward jumps and jumps out of the sequence end the path as an observable exit.
+                i = label_pos[a] + 1
+                continue
             events.append((name, a, st.snapshot()))
             return events, st.snapshot(), env, name
         elif name in ('Return', 'Raise'):
